@@ -137,6 +137,38 @@ Theorem C13_guids_ok_reading : forall garm supplied ds,
 Proof. exact guids_ok_iff. Qed.
 Print Assumptions C13_guids_ok_reading.
 
+(* no memory of earlier calls: the outcome (raise or not, the id -> graph-id list) depends only on the graph stored
+   under garm and on the ids, whatever else the store holds; the partitions stored are the same; and a second call
+   on the store left by a first one partitions the same graph the same way.  (The implementation's per-object
+   cache self.node_ids is refreshed on every call; the `hist` stream of the correspondence partitions, changes the
+   aggregate through the topology API and partitions again with the same ARM object against this model.) *)
+Theorem C13_outcome_depends_only_on_current_graph : forall st1 st2 garm supplied fresh,
+  sview st1 garm = sview st2 garm ->
+  snd (st_generate_adms st1 garm supplied fresh) = snd (st_generate_adms st2 garm supplied fresh).
+Proof. exact outcome_only_current. Qed.
+Print Assumptions C13_outcome_depends_only_on_current_graph.
+
+Theorem C13_partitions_depend_only_on_current_graph : forall st1 st2 garm A supplied fresh st1' st2' dgs1 dgs2,
+  sget st1 garm = Some A -> sget st2 garm = Some A -> wfb A = true ->
+  uuid_fresh garm supplied fresh (c_ids (catalog_delegations A)) ->
+  st_generate_adms st1 garm supplied fresh = (st1', Ok dgs1) ->
+  st_generate_adms st2 garm supplied fresh = (st2', Ok dgs2) ->
+  dgs1 = dgs2 /\ (forall d gid, In (d, gid) dgs1 -> sget st1' gid = sget st2' gid) /\
+  sget st1' garm = Some A /\ sget st2' garm = Some A.
+Proof. exact depends_only_on_current_graph. Qed.
+Print Assumptions C13_partitions_depend_only_on_current_graph.
+
+Theorem C13_repeatable : forall st garm A sup1 fresh1 sup2 fresh2 st' dgs1 st'' dgs2,
+  sget st garm = Some A -> wfb A = true ->
+  uuid_fresh garm sup1 fresh1 (c_ids (catalog_delegations A)) ->
+  uuid_fresh garm sup2 fresh2 (c_ids (catalog_delegations A)) ->
+  st_generate_adms st garm sup1 fresh1 = (st', Ok dgs1) ->
+  st_generate_adms st' garm sup2 fresh2 = (st'', Ok dgs2) ->
+  exists L, generate_adms A = Ok L /\ sget st'' garm = Some A /\
+    (forall d P, In (d, P) L -> sget st' (gid_for sup1 fresh1 d) = Some P /\ sget st'' (gid_for sup2 fresh2 d) = Some P).
+Proof. exact repeatable. Qed.
+Print Assumptions C13_repeatable.
+
 (* re-keying a partition's delegations to a graph id succeeds and changes only the key *)
 Theorem C13_rekey_only_key : forall A L d P, wfb A = true -> generate_adms A = Ok L -> In (d, P) L ->
   forall gid, rewrite_delegations P gid = (mkGraph (map (rekeyed gid) (gnodes P)) (gedges P), None).
